@@ -92,6 +92,62 @@ def _tokens_exit_failures():
     return out
 
 
+
+# ---------------------------------------------------------------- tokens: the ServerState step functions
+STEP_FN = {'create': 'create_tokens', 'destroy': 'destroy_tokens', 'release': 'release', 'release_except_mine': 'release_except_mine',
+           'release_mine': 'release_mine'}
+
+
+def _tokens_step_failures():
+    """contract clauses of units/tokens.vrs for create_tokens / destroy_tokens / release / release_except_mine / release_mine,
+    evaluated on the real functions for every small entry state that satisfies the function's `requires`.
+    -> {(fn, label): [failing input dicts]} or None"""
+    rows = run_probe('tokens-steps')
+    if rows is None:
+        return None
+    out = {}
+
+    def bad(fn, label, r, clause):
+        inp = '%s(my_tokens=%d cheats=%d%s)' % (fn, r['my_tokens'], r['cheats'], (' n=%d' % r['n']) if fn in ('create_tokens', 'destroy_tokens', 'release') else '')
+        out.setdefault((fn, label), []).append(dict(input=inp, clause=clause, observed=dict(ok=r['ok'], my_tokens_after=r['my_tokens_after'],
+                                                                                             cheats_after=r['cheats_after'], token_bytes_written=r['token_bytes'])))
+    for r in rows:
+        op, m, c, n = r['op'], r['my_tokens'], r['cheats'], r['n']
+        fn = STEP_FN[op]
+        m2, c2, tb, ok = r['my_tokens_after'], r['cheats_after'], r['token_bytes'], r['ok']
+        k = min(n, c)
+        if op == 'create':
+            if not ok:
+                bad(fn, 'create.assert_n', r, 'does not panic for n >= 0, cheats >= 0'); continue
+            if c2 != c - k: bad(fn, 'create.cheats', r, 'cheats_after == cheats - min(n, cheats)')
+            if m2 != m + n - k: bad(fn, 'create.tokens', r, 'my_tokens_after == my_tokens + n - min(n, cheats)')
+            if (m2 - c2) != (m - c) + n: bad(fn, 'create.ledger', r, 'real_after == real + n')
+        elif op == 'destroy':
+            if m < n: continue   # requires
+            if not ok:
+                bad(fn, 'destroy.assert', r, 'does not panic when my_tokens >= n'); continue
+            if m2 != m - n: bad(fn, 'destroy.tokens', r, 'my_tokens_after == my_tokens - n')
+        elif op == 'release':
+            if m < n: continue
+            if not ok:
+                bad(fn, 'release.assert_enough', r, 'does not fail when my_tokens >= n'); continue
+            if m2 != m - n: bad(fn, 'release.tokens', r, 'my_tokens_after == my_tokens - n')
+            if c2 != c - k: bad(fn, 'release.cheats', r, 'cheats_after == cheats - min(n, cheats)')
+            if tb != n - k: bad(fn, 'release.written', r, 'token bytes written == n - min(n, cheats)')
+        elif op == 'release_except_mine':
+            if m <= 0: continue
+            if not ok:
+                bad(fn, 'release_except_mine.assert', r, 'does not fail when my_tokens > 0'); continue
+            if m2 != 1: bad(fn, 'release_except_mine.one_left', r, 'my_tokens_after == 1')
+            if (m2 - c2) + tb != (m - c): bad(fn, 'release_except_mine.ledger', r, 'real_after + token bytes written == real')
+        elif op == 'release_mine':
+            if m < 1: continue
+            if not ok:
+                bad(fn, 'release_mine.assert', r, 'does not fail when my_tokens >= 1'); continue
+            if m2 != m - 1: bad(fn, 'release_mine.tokens', r, 'my_tokens_after == my_tokens - 1')
+            if (m2 - c2) + tb != (m - c): bad(fn, 'release_mine.ledger', r, 'real_after + token bytes written == real')
+    return out
+
 # ---------------------------------------------------------------- state.rs: File::deps / zap_deps1 / zap_deps2 / add_dep
 DEPS_EXPECT = {
     'declared': [['c', 's2'], ['m', 's1']],
@@ -257,6 +313,13 @@ def search(prop, violations, tier, seed):
                 hits = f.get(label) or [x for xs in f.values() for x in xs]
                 if hits:
                     return dict(probe='redo-replay tokens-exit', for_obligation=oid, failing_inputs=hits[:6])
+        if oid.startswith('tokens/') and oid.split('/')[1] in STEP_FN.values():
+            f = _tokens_step_failures()
+            if f:
+                fn_, label = oid.split('/')[1], oid.split('/')[-1]
+                hits = f.get((fn_, label)) or [x for (g, _), xs in f.items() if g == fn_ for x in xs]
+                if hits:
+                    return dict(probe='redo-replay tokens-steps', for_obligation=oid, failing_inputs=hits[:6])
         for unit, probe_, fn_, where in PROBED:
             if oid.startswith('%s/%s/' % (unit, fn_)):
                 f = _path_failures(probe_)
@@ -290,6 +353,14 @@ def conformance(prop, unit_names, pins_changed, labels_props):
                 out.append(dict(oid='tokens/do_force_return_tokens/%s' % label, msg='contract clause fails on the real code for a concrete input (probe tokens-exit)',
                                 where=REPO + '/src/jobserver.rs:do_force_return_tokens', site=None, text=hits[0]['clause'],
                                 rendered=json.dumps(hits[:6], indent=1), inputs=[h['input'] for h in hits], fn='do_force_return_tokens', label=label, props=props))
+    if 'tokens' in unit_names:
+        f = _tokens_step_failures() or {}
+        for (fn_, label), hits in f.items():
+            props = labels_props.get(('tokens', label), ['C08', 'C09'])
+            if hits and prop in props:
+                out.append(dict(oid='tokens/%s/%s' % (fn_, label), msg='contract clause fails on the real code for a concrete input (probe tokens-steps)',
+                                where=REPO + '/src/jobserver.rs:' + fn_, site=None, text=hits[0]['clause'], rendered=json.dumps(hits[:6], indent=1),
+                                inputs=[h['input'] for h in hits], fn=fn_, label=label, props=props))
     for unit, probe_, fn_, where in PROBED:
         if unit in unit_names:
             f = _path_failures(probe_) or {}
